@@ -16,6 +16,9 @@ pub(super) fn compile_match_plan(
     if let Some(p) = &plan {
         extract_output_var_kinds(p, &mut known_bindings);
     }
+    // Path aliases of the comma-separated patterns that traverse relationships: one MATCH
+    // clause is a single uniqueness scope.
+    let mut clause_path_aliases: Vec<String> = Vec::new();
 
     for raw_pattern in m.patterns {
         let pattern = maybe_reanchor_pattern(raw_pattern, &known_bindings);
@@ -48,17 +51,19 @@ pub(super) fn compile_match_plan(
 
         if join_via_bound_node || join_via_bound_relationship || correlated_with_outer {
             // Join via expansion (bound start node) or via already-bound relationship variable.
-            plan = Some(compile_pattern_chain(
+            let (chained, path_alias) = compile_pattern_chain(
                 plan,
                 &pattern,
                 predicates,
                 m.optional,
                 &known_bindings,
                 next_anon_id,
-            )?);
+            )?;
+            clause_path_aliases.extend(path_alias);
+            plan = Some(chained);
         } else {
             // Start a new component
-            let sub_plan = compile_pattern_chain(
+            let (sub_plan, path_alias) = compile_pattern_chain(
                 None,
                 &pattern,
                 predicates,
@@ -66,6 +71,7 @@ pub(super) fn compile_match_plan(
                 &known_bindings,
                 next_anon_id,
             )?;
+            clause_path_aliases.extend(path_alias);
             if let Some(existing) = plan {
                 plan = Some(Plan::CartesianProduct {
                     left: Box::new(existing),
@@ -83,6 +89,24 @@ pub(super) fn compile_match_plan(
         }
     }
 
+    // Relationship uniqueness holds across all patterns of the clause, not only inside each
+    // chain: reject rows in which two chains use the same relationship.
+    if clause_path_aliases.len() > 1
+        && let Some(inner) = plan.take()
+    {
+        plan = Some(Plan::Filter {
+            input: Box::new(inner),
+            predicate: Expression::FunctionCall(crate::ast::FunctionCall {
+                name: "__nervus_paths_edge_disjoint".to_string(),
+                args: clause_path_aliases
+                    .iter()
+                    .cloned()
+                    .map(Expression::Variable)
+                    .collect(),
+            }),
+        });
+    }
+
     plan.ok_or_else(|| Error::Other("No patterns in MATCH".into()))
 }
 
@@ -93,7 +117,7 @@ fn compile_pattern_chain(
     optional: bool,
     known_bindings: &BTreeMap<String, BindingKind>,
     next_anon_id: &mut u32,
-) -> Result<Plan> {
+) -> Result<(Plan, Option<String>)> {
     if pattern.elements.is_empty() {
         return Err(Error::Other("pattern cannot be empty".into()));
     }
@@ -414,7 +438,12 @@ fn compile_pattern_chain(
         };
     }
 
-    Ok(plan)
+    let traversed_path_alias = if pattern.elements.len() > 1 {
+        chain_path_alias
+    } else {
+        None
+    };
+    Ok((plan, traversed_path_alias))
 }
 
 fn build_var_len_rel_properties_predicate(
